@@ -15,7 +15,7 @@ ToSet(s) == {s[i] : i \in DOMAIN s}
 Rec(x, pre) == [a |-> x.a, n |-> x.n, d |-> x.d, k |-> x.k, pre |-> pre, post |-> x.post,
                 pubs |-> x.pubs, ipubs |-> x.ipubs, push |-> x.push, fails |-> ToSet(x.fails),
                 err |-> x.err, iso |-> x.iso, snapchg |-> x.snapchg, user |-> x.user, nfail |-> x.nfail,
-                nonadm |-> x.nonadm, procchg |-> x.procchg]
+                nonadm |-> x.nonadm, procchg |-> x.procchg, hang |-> x.hang]
 
 Init == /\ ti \in 1..Len(Traces)
         /\ k = 0
